@@ -24,7 +24,7 @@ PROP = dict(
 )
 
 CLAIM = dict(
-    text="The complete layout logic of WriteDisplayTileNew is modelled as a pure function to a list of canvas operations (Model/Tile.lean) and agrees with the real renderer on every generated state (bytes, colours, inverted twin, bar pairs). Lean theorems for every text state and geometry: tile_size_ok (exact size), tile_active_ok (no pixel outside the active area left by shrink and border differs from the blank value — from the C16 frame theorem applied to every emitted operation), tile_colours_ok (RGB565 export colours are the requested ones), tile_inversion_ok (the inverted rendering is exactly the complement: the operation list does not depend on Inverted and every primitive maps complementary canvases to complementary canvases), box_centred_within_one (centring arithmetic), total/deterministic by construction with the table-index guards proved. Bar monotonicity and the ink-based centring clause are checked on the real renderer's output on every run (Spec.Tile.check / checkBar) but not yet proved.",
+    text="The complete layout logic of WriteDisplayTileNew is modelled as a pure function to a list of canvas operations (Model/Tile.lean) and agrees with the real renderer on every generated state (bytes, colours, inverted twin, bar pairs). Lean theorems for every text state and geometry: tile_size_ok (exact size), tile_active_ok (no pixel outside the active area left by shrink and border differs from the blank value — from the C16 frame theorem applied to every emitted operation), tile_colours_ok (RGB565 export colours are the requested ones), tile_inversion_ok (the inverted rendering is exactly the complement: the operation list does not depend on Inverted and every primitive maps complementary canvases to complementary canvases), box_centred_within_one (centring arithmetic), total/deterministic by construction with the table-index guards proved. bar_monotone: for every text state, geometry, range with 0 < int32(high-low) and values v <= v2, Spec.Tile.checkBar holds of the two renderings (every lit pixel stays lit; from monotonicity of the correctly rounded double division, multiplication and truncation, Lemmas/DblMono.lean, and a lit-subset relation preserved by every primitive, Lemmas/MonoSub.lean); bar_length_in_extent; bar_reversed_range_counterexample shows the range guard is needed. centre_ok_partial: the ink-based centring clause (Spec.Tile.centreOk) for formats 10/11 when every text box lies inside the active area (TileTextFits; per-glyph edge-ink facts over the regenerated fonts); for clipped texts the clause is checked on the real renderer's output on every run but not proved.",
     note=TB + "Float formatting and bar arithmetic modelled with exact integer arithmetic, trusted to equal Go's IEEE-754 behaviour as far as the correspondence shows.",
     technique="Lean 4 proof (layout as pure function to an operation list + C16 frame calculus) + model/implementation correspondence",
 )
